@@ -1330,7 +1330,8 @@ class LangServer:
             # Update file contents with changes
             reparse_req = True
             if self.sync_type == 1:
-                file_obj.apply_change(params["contentChanges"][0])
+                # Every change holds the whole text, the last one is current
+                file_obj.apply_change(params["contentChanges"][-1])
             else:
                 try:
                     reparse_req = False
